@@ -24,7 +24,7 @@ FUNC = {
     "ini_new": "p_ini_file_new", "ini_parse": "p_ini_file_parse", "ini_sections": "p_ini_file_sections", "ini_keys": "p_ini_file_keys",
     "ini_string": "p_ini_file_parameter_string", "ini_int": "p_ini_file_parameter_int", "ini_double": "p_ini_file_parameter_double",
     "ini_bool": "p_ini_file_parameter_boolean", "ini_list": "p_ini_file_parameter_list", "ini_free": "p_ini_file_free",
-    "hash_new": "p_crypto_hash_new", "hash_string": "p_crypto_hash_get_string", "hash_free": "p_crypto_hash_free",
+    "hash_new": "p_crypto_hash_new", "hash_string": "p_crypto_hash_get_string", "hash_check": "p_crypto_hash_get_digest", "hash_free": "p_crypto_hash_free",
     "ipc_key": "p_ipc_get_platform_key", "ipc_tmpdir": "p_ipc_unix_get_temp_dir",
     "dir_new": "p_dir_new", "dir_next": "p_dir_get_next_entry", "dir_path": "p_dir_get_path", "dir_free": "p_dir_free",
     "dirent_free": "p_dir_entry_free", "file_remove_missing": "p_file_remove",
